@@ -4122,9 +4122,10 @@ search_request_new(struct evdns_base *base, struct evdns_request *handle,
 		EVUTIL_ASSERT(handle->search_origname == NULL);
 		handle->search_origname = mm_strdup(name);
 		if (handle->search_origname == NULL) {
-			/* XXX Should we dealloc req? If yes, how? */
-			if (req)
-				mm_free(req);
+			/* the request was never submitted: free it, and do not
+			 * leave the handle pointing at it */
+			mm_free(req);
+			handle->current_req = NULL;
 			return NULL;
 		}
 		handle->search_state = base->global_search_state;
